@@ -910,6 +910,16 @@ class HTTPResponse(BaseHTTPResponse):
                 # `http.client.HTTPResponse`, so we close it here.
                 # See https://github.com/python/cpython/issues/113199
                 self._fp.close()
+                if (
+                    not data
+                    and self.enforce_content_length
+                    and self.length_remaining is not None
+                    and self.length_remaining != 0
+                ):
+                    # Same edge case as above: read1() without an amount
+                    # must not present a body short of Content-Length
+                    # as complete.
+                    raise IncompleteRead(self._fp_bytes_read, self.length_remaining)
 
         if data:
             self._fp_bytes_read += len(data)
